@@ -1,0 +1,7 @@
+//go:build !verif
+
+package srv
+
+// verifYield marks a point at which a schedule-replay test (build tag
+// verif) can pause the calling goroutine. It does nothing in normal builds.
+func verifYield(string) {}
